@@ -3,7 +3,7 @@
 * This product includes software developed at Datadog (https://www.datadoghq.com/). Copyright 2022 Datadog, Inc.
 **/
 use swc::atoms::JsWord;
-use swc_common::{Span, SyntaxContext};
+use swc_common::{BytePos, Span, SyntaxContext};
 use swc_ecma_ast::*;
 
 const DATADOG_VAR_PREFIX: &str = "__datadog";
@@ -54,6 +54,18 @@ pub fn get_dd_call_expr(
     })
 }
 
+/// Span of a parenthesis injected around the operation at `span`. The code generator maps a closing
+/// parenthesis to `span.hi - 1`, which has to be a character boundary of the source: true of `)` in parsed
+/// code, not of the last byte of an operation that ends in a multi-byte character (`a() + é`). The injected
+/// parenthesis has no closing character of its own in the source, so it only covers the operation's first byte.
+pub fn get_dd_paren_span(span: &Span) -> Span {
+    if span.is_dummy() {
+        *span
+    } else {
+        Span::new(span.lo, span.lo + BytePos(1))
+    }
+}
+
 pub fn get_dd_paren_expr(
     expr: &Expr,
     arguments: &[ExprOrSpread],
@@ -70,7 +82,7 @@ pub fn get_dd_paren_expr(
     } else {
         assignations.push(call);
         Expr::Paren(ParenExpr {
-            span: *span,
+            span: get_dd_paren_span(span),
             expr: Box::new(Expr::Seq(SeqExpr {
                 span: *span,
                 exprs: assignations
